@@ -104,7 +104,10 @@ structure Proto where
   onConn : Bool := false
   connReq : Option Nat := none
   lost : Bool := false                    -- ghost: `connectionLost` has been delivered
-  deriving Repr, Inhabited
+  deriving Repr
+
+/-- what `World.proto` returns for a protocol number that was never built: a freshly constructed object (window 1, default timeouts) -/
+instance : Inhabited Proto := ⟨{ addr := 0 }⟩
 
 /-- which of the factory's per-address containers an entry sits in -/
 inductive Box where
